@@ -321,7 +321,8 @@ def write_dddmp(w, m, roots, style):
         L.append(f'{pos[u]} {info} {idx_in_sup[i]} {then} {els}')
     L.append('.end')
     gaps = permids != list(range(len(permids)))
-    return '\n'.join(L) + '\n', dict(mode=mode, ordered=with_ordered, gaps=gaps, sup=[order[l] for l in sup])
+    return '\n'.join(L) + '\n', dict(mode=mode, ordered=with_ordered, gaps=gaps, sup=[order[l] for l in sup],
+                                     rootids=[pos[abs(u)] * (1 if u > 0 else -1) for u in rr])
 
 
 def op_dddmp(w, ins):
@@ -351,8 +352,25 @@ def op_dddmp(w, ins):
         got.append(d)
     want = sorted({s.tt for s in roots})
     if None in got or sorted(set(got)) != want:
-        w.fail('wrong_result', f'dddmp.load: roots {sorted(nb.roots)} do not denote the functions of the file '
-               f'(varinfo {meta["mode"]}, orderedvarnames {meta["ordered"]}, gaps {meta["gaps"]})', ['C16'])
+        verbatim = sorted(nb.roots) == sorted(set(meta['rootids']))
+        if verbatim and 'dddmp-roots-are-file-ids' in w.cfg.get('avoid', ()):
+            # known finding (known_findings.json): the file's root ids are
+            # handed over unmapped.  Keep exploring past it with the weaker
+            # oracle "every root function of the file exists in the manager".
+            T = w.tt
+            have = set()
+            for u, d in sn.den.items():
+                have.add(d)
+                have.add(d ^ T.mask)
+            for s in roots:
+                if s.tt not in have:
+                    w.fail('wrong_result', 'dddmp.load: a root function of the file is not represented in the returned manager', ['C16'])
+            w.stats['dddmp_known_roots_unmapped_skipped'] += 1
+        else:
+            w.fail('wrong_result', f'dddmp.load: roots {sorted(nb.roots)} do not denote the functions of the file '
+                   f'({"they are the node ids of the file, unmapped; " if verbatim else ""}'
+                   f'varinfo {meta["mode"]}, orderedvarnames {meta["ordered"]}, gaps {meta["gaps"]})', ['C16'],
+                   cond=['roots_verbatim_file_ids'] if verbatim else [])
     if meta['ordered']:
         if sn.order != w.snapshot(m).order:
             w.fail('wrong_order', f'dddmp.load: order {sn.order}, file says {w.snapshot(m).order}', ['C16'])
